@@ -76,7 +76,7 @@ func init() {
 		ID:    "C20",
 		Level: "model_checking",
 		Rule: "partition arithmetic: every (n,m) of the stated rectangle is one case (free-running instrumented build), non-trivial when n mod m != 0 or n < m or m is the NumCPU default; " +
-			"schedules: every (n,m) in [0,5]x[1,4] explored without bound (DPOR, cross-checked by reduction-free search for small cases) with a work function that yields between 'started' and 'finished' marks, plus deviation-bounded search on larger cases; a state is a decision point of the explored schedule tree, a transition one visible operation of the real code",
+			"large worker limits {65..300} on n up to 2048 with m DEcreasing for each n (call-order independence), and (NumCPU, GOMAXPROCS) pairs that differ; schedules: every (n,m) in [0,5]x[1,4] explored without bound (DPOR, cross-checked by reduction-free search for small cases) with a work function that yields between 'started' and 'finished' marks, plus deviation-bounded search on larger cases; a state is a decision point of the explored schedule tree, a transition one visible operation of the real code",
 		Assume: []string{"m >= 1 (the statement's domain)", "scheduling points are the visible synchronisation operations (WaitGroup, go, exit, harness counters); sequential consistency",
 			"NumCPU default exercised through the vsched.NumCPU seam (runtime.NumCPU rewritten by the overlay)"},
 		Units: c20Units,
